@@ -205,12 +205,5 @@ Proof.
   unfold spec_events. f_equal. apply map_ext. intro j. lia.
 Qed.
 
-(* the full statement (not proved; validated by the correspondence run): draining a generator
-   over readable files yields every file's events' particle tags in order, then StopIteration,
-   and the count after the last event is the sum of the files' total_thrown *)
+(* particle tags of event i as get_particle_info() exposes them *)
 Definition particle_tags_of (f : wstate) (i : Z) : list Z := map (fun r => nthZ r 0 0) (read_event f i P).
-Definition filegen_replays_statement : Prop :=
-  forall files k, 1 <= k -> Forall readable files -> files <> [] ->
-  exists items, filegen files k = inr (items, Some EStop) /\
-    map fst items = flat_map (fun f => map (particle_tags_of f) (zseq (n_events f))) files /\
-    (forall d, snd (last items d) = fold_right Z.add 0 (map tv files) \/ items = []).
